@@ -359,7 +359,7 @@ class Imm18Relocation(Relocation):
 
     def calc(self, sym_value, reloc_value):
         offset = sym_value - reloc_value - 4
-        assert offset in range(-131068, 131075), str(offset)
+        assert offset in range(-131072, 131072), str(offset)
         # TODO: this wrap_negative is somewhat weird
         return wrap_negative(offset, 18)
 
